@@ -256,6 +256,33 @@ func c16EndsProbe(c *fw.Ctx, t geom.T, others []geom.T, snaps []snapshot, names 
 	return ok
 }
 
+// c16NilDiff compares nil-ness (not contents) of the slices two geometries
+// hand out: FlatCoords, Ends, Endss and every Endss row.
+func c16NilDiff(a, b geom.T) string {
+	w := func(isNil bool) string {
+		if isNil {
+			return "nil"
+		}
+		return "empty, not nil"
+	}
+	if (a.FlatCoords() == nil) != (b.FlatCoords() == nil) {
+		return fmt.Sprintf("FlatCoords() is %s in the original and %s in the copy", w(a.FlatCoords() == nil), w(b.FlatCoords() == nil))
+	}
+	if (a.Ends() == nil) != (b.Ends() == nil) {
+		return fmt.Sprintf("Ends() is %s in the original and %s in the copy", w(a.Ends() == nil), w(b.Ends() == nil))
+	}
+	ae, be := a.Endss(), b.Endss()
+	if (ae == nil) != (be == nil) {
+		return fmt.Sprintf("Endss() is %s in the original and %s in the copy", w(ae == nil), w(be == nil))
+	}
+	for i := range ae {
+		if i < len(be) && (ae[i] == nil) != (be[i] == nil) {
+			return fmt.Sprintf("Endss()[%d] is %s in the original and %s in the copy", i, w(ae[i] == nil), w(be[i] == nil))
+		}
+	}
+	return ""
+}
+
 func c16Geoms(c *fw.Ctx, idx int) {
 	r := c.R
 	kind := gen.Kinds7[r.Intn(len(gen.Kinds7))]
@@ -289,6 +316,15 @@ func c16Geoms(c *fw.Ctx, idx int) {
 	if !wfCheck(c, "Clone", clone) {
 		return
 	}
+	// "structure ... including nil vs empty slices": what the accessors hand out
+	// for the clone is nil exactly where it is nil for the original.
+	for i, cl := range []geom.T{clone, clone2} {
+		if d := c16NilDiff(orig, cl); d != "" {
+			c.Fail("clone-nil-vs-empty", "%s differs from the original in structure: %s", []string{"the clone", "the clone of the clone"}[i], d)
+			return
+		}
+	}
+	c.Count("nil_vs_empty_compared")
 	c.Distinct(fmt.Sprintf("%s/%s/%d/%v", kind, layout, storage, g.IsEmpty()))
 	c.Count("storage_" + []string{"exact", "spare-capacity", "empty-non-nil"}[storage])
 	all := []geom.T{orig, clone, clone2}
